@@ -70,8 +70,9 @@ void ResamplingWithPrior::resample(const ParticleSet& cor_particles, ParticleSet
 
     /* Copy particles to be resampled in a temporary. */
     ParticleSet tmp_particles(num_resample_particles, cor_particles.dim_linear, cor_particles.dim_circular);
+    const std::vector<unsigned int> sorted_indices = sort_indices(cor_particles.weight().array().exp());
     int j = 0;
-    for (std::size_t i : sort_indices(cor_particles.weight().array().exp()))
+    for (std::size_t i : sorted_indices)
     {
         if (j >= num_prior_particles)
         {
@@ -88,7 +89,9 @@ void ResamplingWithPrior::resample(const ParticleSet& cor_particles, ParticleSet
 
     /* Resample from tmp_particles. */
     Resampling::resample(tmp_particles, res_particles_right, res_parents_right);
-    res_parents_right.array() += num_prior_particles;
+    /* The parents refer to positions within tmp_particles: map them back to indices of cor_particles. */
+    for (int k = 0; k < num_resample_particles; ++k)
+        res_parents_right(k) = sorted_indices[res_parents_right(k) + num_prior_particles];
 
     /* Initialize from scratch num_prior_particles particles. */
     init_model_->initialize(res_particles_left);
